@@ -25,7 +25,7 @@ MIN_EVENTS = {"faulty modules offered": 300, "registry operations": 400,
               "load calls with sys.path compared": 150,
               "ancillary dictionaries judged": 100}
 TIMEOUT = {"quick": 900, "thorough": 3500}
-N_SEQ = {"quick": 6, "thorough": 140}     # per shard
+N_SEQ = {"quick": 6, "thorough": 1200}     # per shard
 RULE = ("cases: (a) every single-fault mutant of a valid model module "
         "(attribute deleted; key/name/unit lists lengthened, shortened; "
         "keys or defaults permuted; duplicate names; ancillary recipe "
